@@ -70,7 +70,7 @@ impl Prop for C14 {
     fn budget(tier: Tier) -> Budget {
         match tier {
             Tier::Quick => Budget { cases: 9000, shards: 16 },
-            Tier::Thorough => Budget { cases: 120_000, shards: 16 },
+            Tier::Thorough => Budget { cases: 360000, shards: 16 },
         }
     }
 
